@@ -23,6 +23,7 @@ import (
 	"path/filepath"
 	"strconv"
 	"strings"
+	"sync"
 	"time"
 
 	"com.tuntun.rangers/node/src/common"
@@ -49,7 +50,14 @@ type Input struct {
 	Idx    int      `json:"idx"`
 	Parent int      `json:"parent"` // index into the committed roots of this child (0 = genesis)
 	Height uint64   `json:"height"`
+	Group  int      `json:"group"`  // 0 = genesis group, 1..2 = harness groups whose members are the workload's miners
+	Castor int      `json:"castor"` // -1 = genesis proposer, k = workload miner k
 	Txs    []TxSpec `json:"txs"`
+}
+
+func minerID(k int) []byte {
+	id := sha256.Sum256([]byte(fmt.Sprintf("miner-%d", k)))
+	return id[:]
 }
 
 var harnessKey = common.HexStringToSecKey("0x1f2e3d4c5b6a79880102030405060708090a0b0c0d0e0f101112131415161718")
@@ -90,7 +98,9 @@ const (
 func addr(i int) string { return fmt.Sprintf("0x%040x", 0x5000+i) }
 
 func genInput(rng *rand.Rand, idx int, nRoots int) Input {
-	in := Input{Idx: idx, Parent: rng.Intn(nRoots), Height: uint64(1 + rng.Intn(5))}
+	// inputs come in batches of 4 with one height (the fork flags are process-global) so that a
+	// batch can also be executed concurrently
+	in := Input{Idx: idx, Parent: rng.Intn(nRoots), Height: uint64(1 + (idx/4)%5), Group: rng.Intn(3), Castor: rng.Intn(7) - 1}
 	ntx := 1 + rng.Intn(8)
 	rich := env.RichAccounts
 	nonce := map[string]uint64{}
@@ -128,8 +138,8 @@ func genInput(rng *rand.Rand, idx int, nRoots int) Input {
 		case c < 65:
 			s.Kind = "miner-apply"
 			id := sha256.Sum256([]byte(fmt.Sprintf("miner-%d", rng.Intn(6))))
-			typ := byte(rng.Intn(2))
-			stake := []uint64{100, 400, 2000, 2500}[rng.Intn(4)]
+			typ := byte(rng.Intn(3) / 2) // two thirds validators (they earn the per-block validator reward)
+			stake := []uint64{100, 400, 450, 800, 2000, 2500}[rng.Intn(6)]
 			m := types.Miner{Id: id[:], PublicKey: id[:], VrfPublicKey: id[:], Type: typ, Stake: stake}
 			if rng.Intn(2) == 0 {
 				m.Account = common.FromHex(addr(rng.Intn(4)))
@@ -180,7 +190,15 @@ func (o outcome) key() string {
 	return hex.EncodeToString(h[:])
 }
 
+var harnessGroups [][]byte // ids of the groups added by the harness
+
 func execOnce(root common.Hash, in Input, castor, group []byte) (outcome, error) {
+	if in.Group > 0 && in.Group <= len(harnessGroups) {
+		group = harnessGroups[in.Group-1]
+	}
+	if in.Castor >= 0 {
+		castor = minerID(in.Castor)
+	}
 	adb, err := middleware.AccountDBManagerInstance.GetAccountDBByHash(root)
 	if err != nil {
 		return outcome{}, err
@@ -193,7 +211,6 @@ func execOnce(root common.Hash, in Input, castor, group []byte) (outcome, error)
 		txs = append(txs, s.build())
 	}
 	blk := &types.Block{Header: h, Transactions: txs}
-	common.SetBlockHeight(in.Height)
 	st, ev, ex, rc := core.VerifExecuteBlock(adb, blk, "fullverify")
 	o := outcome{Root: st.Hex()}
 	for _, e := range ev {
@@ -248,11 +265,35 @@ func classify(in Input, a, b outcome) (string, string) {
 	return "C01:executor:state-root-differs-between-repetitions:" + strings.Join(ks, "+"), fmt.Sprintf("same receipts but state root %s VS %s", a.Root, b.Root)
 }
 
+func addHarnessGroups(r *mon.Run) {
+	gc := core.GetGroupChain()
+	last := gc.LastGroup()
+	genesisID := gc.GetGroupByHeight(0).Id
+	for g := 0; g < 2; g++ {
+		h := &types.GroupHeader{Parent: genesisID, PreGroup: last.Id, CreateHeight: uint64(g + 1), Extends: "verif-c01"}
+		h.Hash = h.GenHash()
+		id := sha256.Sum256([]byte(fmt.Sprintf("verif-group-%d", g)))
+		grp := &types.Group{Header: h, Id: id[:], PubKey: id[:], Signature: id[:]}
+		for k := 0; k < 6; k++ {
+			if (k+g)%2 == 0 || k < 3 {
+				grp.Members = append(grp.Members, minerID(k))
+			}
+		}
+		if err := gc.AddGroup(grp); err != nil {
+			fmt.Println("MACHINERY: cannot add harness group:", err)
+			os.Exit(3)
+		}
+		harnessGroups = append(harnessGroups, grp.Id)
+		last = grp
+	}
+}
+
 func childExec(r *mon.Run, args []string) {
 	from, _ := strconv.Atoi(args[0])
 	to, _ := strconv.Atoi(args[1])
 	reps, _ := strconv.Atoi(args[2])
 	env.BootCore(env.Forks{}, nil)
+	addHarnessGroups(r)
 	gen := core.GetBlockChain().TopBlock()
 	group := core.GetGroupChain().GetGroupByHeight(0).Id
 	castor := common.FromHex(env.DevProposerID)
@@ -263,70 +304,135 @@ func childExec(r *mon.Run, args []string) {
 		json.Unmarshal([]byte(args[3]), &in)
 		replay = &in
 	}
-	for i := from; i < to; i++ {
-		rng := r.Rand("c01-input", i)
-		in := genInput(rng, i, len(roots))
-		if replay != nil {
-			in = *replay
-			if in.Parent >= len(roots) {
-				in.Parent = 0
+	for base := from; base < to; base += 4 {
+		var batch []Input
+		var firsts []outcome
+		var ok []bool
+		for i := base; i < base+4 && i < to; i++ {
+			rng := r.Rand("c01-input", i)
+			in := genInput(rng, i, len(roots))
+			if replay != nil {
+				in = *replay
+				in.Idx = i
+				if in.Parent >= len(roots) {
+					in.Parent = 0
+				}
+			}
+			batch = append(batch, in)
+		}
+		common.SetBlockHeight(batch[0].Height)
+		// sequential repetitions
+		for _, in := range batch {
+			b, _ := json.Marshal(in)
+			r.CaseBegin(b)
+			var first outcome
+			distinct := map[string]bool{}
+			bad := false
+			for rep := 0; rep < reps; rep++ {
+				var o outcome
+				var err error
+				panicked := r.Guard("C01:executor", in, func() { o, err = execOnce(roots[in.Parent], in, castor, group) })
+				if panicked || err != nil {
+					bad = true
+					break
+				}
+				r.Count("executions", 1)
+				distinct[o.key()] = true
+				if rep == 0 {
+					first = o
+				} else if o.key() != first.key() && !bad {
+					sig, what := classify(in, first, o)
+					r.Violation(sig, fmt.Sprintf("input %d, repetition %d of %d: %s", in.Idx, rep, reps, what), in)
+					bad = true
+				}
+			}
+			firsts = append(firsts, first)
+			ok = append(ok, !bad)
+			r.Count("inputs", 1)
+			r.Max("max_distinct_outcomes_per_input", int64(len(distinct)))
+			for _, s := range in.Txs {
+				r.Count("tx_kind_"+s.Kind, 1)
+			}
+			if in.Group > 0 {
+				r.Count("inputs_with_workload_group", 1)
+			}
+			nt := len(in.Txs) >= 2
+			for _, s := range in.Txs {
+				if len(s.Targets) >= 2 {
+					nt = true
+				}
+			}
+			if nt {
+				r.Distinct("nontrivial_inputs", b)
+			}
+			if in.Idx == 0 {
+				r.Sample(map[string]interface{}{"layer": "executor", "input": in, "outcome_root": first.Root, "receipts": first.Receipts})
 			}
 		}
-		b, _ := json.Marshal(in)
-		r.CaseBegin(b)
-		var first outcome
-		distinct := map[string]bool{}
-		bad := false
-		for rep := 0; rep < reps; rep++ {
-			var o outcome
-			var err error
-			panicked := r.Guard("C01:executor", in, func() { o, err = execOnce(roots[in.Parent], in, castor, group) })
-			if panicked || err != nil {
-				bad = true
-				break
+		// concurrent phase: the batch's inputs executed at the same time on separate state objects (as the
+		// proposer's runTransactions goroutine and block verification do); every outcome must equal the
+		// isolated one
+		for round := 0; round < reps/2; round++ {
+			outs := make([]outcome, len(batch))
+			errs := make([]error, len(batch))
+			pan := make([]bool, len(batch))
+			var wg sync.WaitGroup
+			for k := range batch {
+				if !ok[k] {
+					continue
+				}
+				wg.Add(1)
+				go func(k int) {
+					defer wg.Done()
+					pan[k] = r.Guard("C01:executor-concurrent", batch[k], func() { outs[k], errs[k] = execOnce(roots[batch[k].Parent], batch[k], castor, group) })
+				}(k)
 			}
-			r.Count("executions", 1)
-			distinct[o.key()] = true
-			if rep == 0 {
-				first = o
-			} else if o.key() != first.key() && !bad {
-				sig, what := classify(in, first, o)
-				r.Violation(sig, fmt.Sprintf("input %d, repetition %d of %d: %s", in.Idx, rep, reps, what), in)
-				bad = true
+			wg.Wait()
+			for k := range batch {
+				if !ok[k] || pan[k] || errs[k] != nil {
+					continue
+				}
+				r.Count("concurrent_executions", 1)
+				if outs[k].key() != firsts[k].key() {
+					_, what := classify(batch[k], firsts[k], outs[k])
+					kinds := map[string]bool{}
+					for _, s := range batch[k].Txs {
+						kinds[s.Kind] = true
+					}
+					cls := "other"
+					if kinds["contract-create"] || kinds["contract-call"] {
+						cls = "contract"
+					}
+					r.Violation("C01:executor:outcome-differs-when-blocks-execute-concurrently:"+cls, fmt.Sprintf("input %d executed concurrently with %d other block executions: %s", batch[k].Idx, len(batch)-1, what),
+						map[string]interface{}{"layer": "executor-concurrent", "batch": batch, "differs": batch[k].Idx})
+					ok[k] = false
+				}
 			}
-		}
-		r.Count("inputs", 1)
-		r.Max("max_distinct_outcomes_per_input", int64(len(distinct)))
-		for _, s := range in.Txs {
-			r.Count("tx_kind_"+s.Kind, 1)
-		}
-		nt := len(in.Txs) >= 2
-		for _, s := range in.Txs {
-			if len(s.Targets) >= 2 {
-				nt = true
-			}
-		}
-		if nt {
-			r.Distinct("nontrivial_inputs", b)
-		}
-		if i == from && from == 0 {
-			r.Sample(map[string]interface{}{"layer": "executor", "input": in, "outcome_root": first.Root, "receipts": first.Receipts})
 		}
 		// extend the set of parent states: commit the post-state of some deterministic inputs
-		if !bad && replay == nil && len(roots) < 6 && rng.Intn(4) == 0 {
-			adb, _ := middleware.AccountDBManagerInstance.GetAccountDBByHash(roots[in.Parent])
-			h := &types.BlockHeader{Height: in.Height, Castor: castor, GroupId: group, CurTime: time.Date(2024, 6, 1, 0, 0, int(in.Height), 0, time.UTC),
-				ProveValue: big.NewInt(7), TotalQN: in.Height, RequestIds: map[string]uint64{}}
-			var txs []*types.Transaction
-			for _, s := range in.Txs {
-				txs = append(txs, s.build())
-			}
-			common.SetBlockHeight(in.Height)
-			root, _, _, _ := core.VerifExecuteBlock(adb, &types.Block{Header: h, Transactions: txs}, "fullverify")
-			if cr, err := adb.Commit(true); err == nil && cr == root {
-				if middleware.AccountDBManagerInstance.GetTrieDB().Commit(cr, false) == nil {
-					roots = append(roots, cr)
-					r.Count("parent_states_committed", 1)
+		for k, in := range batch {
+			rng := r.Rand("c01-commit", in.Idx)
+			if ok[k] && replay == nil && len(roots) < 8 && rng.Intn(3) == 0 {
+				adb, _ := middleware.AccountDBManagerInstance.GetAccountDBByHash(roots[in.Parent])
+				g2, c2 := group, castor
+				if in.Group > 0 {
+					g2 = harnessGroups[in.Group-1]
+				}
+				if in.Castor >= 0 {
+					c2 = minerID(in.Castor)
+				}
+				h := &types.BlockHeader{Height: in.Height, Castor: c2, GroupId: g2, CurTime: time.Date(2024, 6, 1, 0, 0, int(in.Height), 0, time.UTC),
+					ProveValue: big.NewInt(7), TotalQN: in.Height, RequestIds: map[string]uint64{}}
+				var txs []*types.Transaction
+				for _, s := range in.Txs {
+					txs = append(txs, s.build())
+				}
+				root, _, _, _ := core.VerifExecuteBlock(adb, &types.Block{Header: h, Transactions: txs}, "fullverify")
+				if cr, err := adb.Commit(true); err == nil && cr == root {
+					if middleware.AccountDBManagerInstance.GetTrieDB().Commit(cr, false) == nil {
+						roots = append(roots, cr)
+						r.Count("parent_states_committed", 1)
+					}
 				}
 			}
 		}
